@@ -30,6 +30,8 @@ type vfHost struct {
 	addrs      []ma.Multiaddr
 	handlers   map[protocol.ID]bool
 	connectErr map[peer.ID]bool
+	connectSlowOnce map[peer.ID]bool
+	dialFailed map[peer.ID]bool // peers whose (slow) dial ended in an error
 	dialed     []peer.ID
 	bus        *vfBus
 }
@@ -49,6 +51,20 @@ func (h *vfHost) Connect(ctx context.Context, pi peer.AddrInfo) error {
 	}
 	if h.connectErr[pi.ID] {
 		return errors.New("dial failed")
+	}
+	if h.connectSlowOnce[pi.ID] {
+		// the first dial of this peer hangs until its context ends (or a minute passes)
+		delete(h.connectSlowOnce, pi.ID)
+		if h.dialFailed == nil {
+			h.dialFailed = map[peer.ID]bool{}
+		}
+		h.dialFailed[pi.ID] = true
+		select {
+		case <-ctx.Done():
+			return ctx.Err()
+		case <-time.After(time.Minute):
+			return errors.New("dial timed out")
+		}
 	}
 	h.nw.connected[pi.ID] = network.Connected
 	return nil
